@@ -611,6 +611,32 @@ static J gen_c03 (uint64_t seed, uint64_t idx)
 		e ["keep"] = (long long) g.rng.range (4, 128) ;
 		ed.push (e) ;
 	}
+	// files as they occur in the wild around an otherwise valid image (decided from a separate stream, so that the other plans
+	// stay what they were): an ID3v2 tag in front of any container (the reader skips it and parses the rest at an offset), a WAV
+	// fmt chunk of the "24 bits in a 32-bit container" kind that sends the reader into its content-sniffing code
+	{	GenCtx gx (sub_seed (seed, "C03x", idx)) ;
+		uint64_t q = gx.rng.below (100) ;
+		bool wavfam = f.major == SF_FORMAT_WAV || f.major == SF_FORMAT_WAVEX || f.major == SF_FORMAT_RF64 ;
+		J extra = J::arr () ;
+		if (q < 8)
+		{	J e = J::obj () ; e ["kind"] = "id3_prefix" ; e ["ver"] = (int) gx.rng.range (2, 4) ;
+			e ["len"] = (long long) gx.rng.pick<int64_t> ({ 0, 1, 10, 117, 128, 2038, 4086, 4087, 16374, 70000 }) ;
+			e ["lie"] = (long long) (gx.rng.chance (0.25) ? gx.rng.pick<int64_t> ({ -1, 1, 1 << 20, 0x0fffffff }) : 0) ; e ["flags"] = (int) (gx.rng.chance (0.2) ? 0x10 : 0) ;
+			extra.push (e) ;
+		}
+		else if (q < 16 && wavfam && ch <= 8)
+		{	J e = J::obj () ; e ["kind"] = "wav_broken_fmt" ; e ["bits"] = (int) gx.rng.pick<int> ({ 24, 24, 24, 32, 16 }) ; e ["mult"] = (int) gx.rng.pick<int> ({ 4, 4, 4, 3, 8 }) ; extra.push (e) ; }
+		else if (q < 24 && wavfam)
+		{	// a LIST chunk of a kind this writer never produces (exif, adtl, INFO with unusual ids), before the audio or after it
+			J e = J::obj () ; e ["kind"] = "inject" ; e ["id"] = 3 ; e ["len"] = (long long) gx.rng.below (300) ; e ["fill"] = (int) gx.rng.below (2) ;
+			e ["chunk"] = (long long) gx.rng.below (64) ; e ["at_end"] = gx.rng.chance (0.3) ? 1 : 0 ; extra.push (e) ;
+		}
+		if (extra.size ())
+		{	// two thirds of them keep the image otherwise intact
+			if (gx.rng.chance (0.67)) ed = extra ;
+			else { for (size_t k = 0 ; k < ed.size () ; k++) extra.push (ed [k]) ; ed = extra ; }
+		}
+	}
 	c ["edits"] = ed ; if (needs_path_route (f) && g.rng.chance (0.6)) c ["rsrc"] = 1 ; ops.push (c) ;
 	// reader
 	uint64_t rr = g.rng.below (100) ;
